@@ -229,7 +229,7 @@ func ruleR8() *Rule {
 					"a cancellation poll dominates this writing call of mergeToWriter (a merge cancelled beforehand writes nothing)",
 					"this call can write although no poll of the close channel has been passed on the way", "call: "+describeInstr(c.p, cs))
 			}
-			c.check(n >= 3, "mergeToWriter/writing-calls", c.fpos(mtw), "writing calls of mergeToWriter are found (confirmed by hand: 3)", fmt.Sprintf("found %d", n))
+			c.check(n >= 1, "mergeToWriter/writing-calls", c.fpos(mtw), "writing calls of mergeToWriter are found (pinned tree: 3; fewer when they are grouped into a helper)", fmt.Sprintf("found %d", n))
 		},
 	}
 }
